@@ -33,7 +33,7 @@ def B2_for(*mods):
 prop("C01",
      lambda tier: [tls.rule_A5, B1_for("decryptor", "session"), tables.rule_T4, tables.rule_T3_classes, tables.rule_T3_iv, tls.rule_types, tls.rule_A4, tls.rule_PAD,
                    tls.rule_T10, tls.rule_D1, output.rule_A8, tcp.rule_tls_causality, output.rule_T7_split, output.rule_A7, B2_for("output_builder", "session"),
-                   tcp.rule_framing, tcp.rule_A9, tcp.rule_full_scans, tcp.rule_A6a],
+                   tcp.rule_framing, tcp.rule_A9, tcp.rule_full_scans, tcp.rule_A6a, output.rule_packet_fields],
      "Decides the necessary structure of per-record state and dispatch: sequence number read/increment pairing, CBC residue chaining from ciphertext, RC4 contexts "
      "created once, key switch at Finished assigning key+IV+seq of one direction (A5); direction arms are mirror images (B1); decrypt() dispatch equals the record "
      "protection of every valid (version, bulk) pair, by finite-domain guard evaluation (T4); parser/decryptor/IV-length tables agree (T3); record / handshake type "
@@ -66,7 +66,7 @@ prop("C03",
 
 prop("C04",
      lambda tier: [state.rule_D6_ownership, mirror.rule_B3_match, keylog.rule_D7, quic.rule_D7b, cli.rule_A6c, mirror.rule_B3_bind, escape.rule_A1,
-                   state.rule_attr_kinds],
+                   state.rule_attr_kinds, output.rule_packet_fields],
      "Decides: per-flow classes keep all state on the instance — no class-level mutable attributes, mutable defaults, global writes, shared key list never mutated by "
      "flow code (D6a); both match predicates test the full 4-tuple in both orientations (B3); secrets are selected by client-random equality on normalised case (D7); "
      "QUIC datagrams are matched by non-empty connection ID, else by 4-tuple (D7b); session creation gate and role binding (A6c, B3b). Together: a packet can only "
@@ -92,7 +92,7 @@ prop("C06",
 
 prop("C07",
      lambda tier: [output.rule_D2, tcp.rule_framing, mirror.rule_B3_bind, B2_for("output_builder", "session"), B1_for("quic.quic_output_builder", "output_builder"),
-                   quic.rule_D8, output.rule_D3, mirror.rule_B3_match, output.rule_A7, tcp.rule_full_scans, pcapng.rule_T9_pcapng, cli.rule_D4],
+                   quic.rule_D8, output.rule_D3, mirror.rule_B3_match, output.rule_A7, tcp.rule_full_scans, pcapng.rule_T9_pcapng, cli.rule_D4, output.rule_packet_fields],
      "Decides: timestamps flow without arithmetic from the reader's (ts, buf) pair through Packet.timestamp / record.metadata resp. QuicPacket.ts to the emitted "
      "(frame, ts) pairs; handshake time = first record's first packet (D2); a record is attributed to exactly the packets overlapping its byte range (FR overlap); "
      "role binding from the first packet (B3b); address/port/MAC orientation per arm (B1/B2, A7 sender check); QUIC group time and direction travel together (D8); IP "
